@@ -637,61 +637,6 @@ Proof.
   apply (forallb_In _ _ (n, t) H7 (lookup_In _ _ _ Hl)).
 Qed.
 
-Section HandlersTotal.
-  Variable E : env.
-  Variable search : val -> val -> outcome val.
-  Variable list : val -> val -> outcome val.
-  Hypothesis HE : from_safe E = true.
-  (** the searcher behind the server does not panic when it is given options *)
-  Hypothesis search_np : forall q o w, o <> VNil -> search q o <> Panic w.
-  Hypothesis list_np : forall q o w, list q o <> Panic w.
-
-  Lemma decode_query_np : forall q, wire_wf q = true -> forall w, decode_query E q <> Panic w.
-  Proof.
-    intros q Hq w. unfold decode_query.
-    pose proof (from_no_panic E HE q Hq CQFrom eq_refl (or_intror eq_refl)) as H.
-    destruct (apply E CQFrom q) as [a|e|w'] eqn:Ha; try discriminate. exfalso. apply (H w'). reflexivity.
-  Qed.
-
-  Lemma search_core_np : forall request, wire_wf request = true ->
-    forall w, search_core E search true request <> Panic w.
-  Proof.
-    intros request Hwf. unfold search_core.
-    apply obind_np; [apply decode_query_np; apply wire_wf_getf; exact Hwf|].
-    intros q. apply obind_np.
-    - apply (from_no_panic E HE _ (wire_wf_getf _ _ Hwf)).
-      + unfold safe_payload_conv. rewrite (safe_conv_rec E _ _ HE). reflexivity.
-      + right. apply (safe_conv_rec E _ _ HE).
-    - intros opts w. unfold call_search. simpl andb.
-      destruct (is_nil opts) eqn:Hn.
-      + unfold zero_opts, rows_of.
-        destruct (from_safe_parts E HE) as [_ [_ [_ [_ [_ [[t Ht] _]]]]]]. rewrite Ht. simpl.
-        apply search_np. discriminate.
-      + rewrite Hn. apply search_np. intros ->. discriminate.
-  Qed.
-
-  Theorem handlers_total : forall h req, wire_wf req = true ->
-    forall w, handle E search list true h req <> Panic w.
-  Proof.
-    intros h req Hwf w. unfold handle.
-    destruct h as [|[p|p|]].
-    - apply search_core_np. exact Hwf.
-    - unfold handle_list. revert w.
-      apply obind_np; [apply decode_query_np; apply wire_wf_getf; exact Hwf|].
-      intros q. apply obind_np; [|intros o w; apply list_np].
-      apply (from_no_panic E HE _ (wire_wf_getf _ _ Hwf)).
-      + unfold safe_payload_conv. rewrite (safe_conv_rec E _ _ HE). reflexivity.
-      + right. apply (safe_conv_rec E _ _ HE).
-    - unfold handle_list. revert w.
-      apply obind_np; [apply decode_query_np; apply wire_wf_getf; exact Hwf|].
-      intros q. apply obind_np; [|intros o w; apply list_np].
-      apply (from_no_panic E HE _ (wire_wf_getf _ _ Hwf)).
-      + unfold safe_payload_conv. rewrite (safe_conv_rec E _ _ HE). reflexivity.
-      + right. apply (safe_conv_rec E _ _ HE).
-    - unfold handle_stream_search. apply search_core_np. apply wire_wf_getf. exact Hwf.
-  Qed.
-End HandlersTotal.
-
 (** the record-level corollary with named exclusions *)
 Theorem record_roundtrip : forall E, env_ok E = true ->
   forall n t fs nl nl', lookup n (e_tables E) = Some t ->
@@ -703,3 +648,138 @@ Proof.
   apply (rec_roundtrip E n t fs nl nl' Ht (env_ok_table _ _ _ HE Ht)); [|exact Hdom].
   apply Forall_forall. intros kv _. apply roundtrip_all. exact HE.
 Qed.
+
+(* ---------------------------------------------------------------- handlers: decode, call, encode *)
+
+(** response encoding: a result of the domain is encoded without panic, and decodes (on the client)
+    to the same result with the named exclusions reset *)
+Lemma enc_result_roundtrip : forall E, env_ok E = true -> forall n r, res_dom E n r = true ->
+  exists w, enc_result E n r = Ok w /\ dec_result E n w = Ok (res_back E n r).
+Proof.
+  intros E HE n r Hd. unfold res_dom, enc_result, dec_result, res_back in *.
+  destruct (lookup n (e_tables E)) as [t|] eqn:Ht; [|discriminate].
+  destruct r; try (simpl in Hd; rewrite Ht in Hd; discriminate).
+  - (* VNil *) simpl in Hd. rewrite Ht in Hd. apply andb_true_iff in Hd. destruct Hd as [-> ->].
+    exists VNil. split; apply (apply_rec_VNil_nilable _ _ _ _ Ht).
+  - (* VR *) apply (record_roundtrip E HE n t fs _ _ Ht Hd).
+Qed.
+
+Section HandlersTotal.
+  Variable E : env.
+  Variable search : val -> val -> outcome val.
+  Variable stream : val -> val -> outcome val.
+  Variable list : val -> val -> outcome val.
+  Hypothesis HE : from_safe E = true.
+  Hypothesis HOK : env_ok E = true.
+  (** the searcher behind the server does not panic when it is given options ... *)
+  Hypothesis search_np : forall q o w, o <> VNil -> search q o <> Panic w.
+  Hypothesis stream_np : forall q o w, o <> VNil -> stream q o <> Panic w.
+  Hypothesis list_np : forall q o w, list q o <> Panic w.
+  (** ... and what it returns is a value of the result type's round-trip domain *)
+  Hypothesis search_dom : forall q o r, search q o = Ok r -> res_dom E "zoekt.SearchResult" r = true.
+  Hypothesis stream_dom : forall q o evs, stream q o = Ok (VL evs) ->
+    forallb (res_dom E "zoekt.SearchResult") evs = true.
+  Hypothesis list_dom : forall q o r, list q o = Ok r -> res_dom E "zoekt.RepoList" r = true.
+
+  Lemma decode_query_np : forall q, wire_wf q = true -> forall w, decode_query E q <> Panic w.
+  Proof.
+    intros q Hq w. unfold decode_query.
+    pose proof (from_no_panic E HE q Hq CQFrom eq_refl (or_intror eq_refl)) as H.
+    destruct (apply E CQFrom q) as [a|e|w'] eqn:Ha; try discriminate. exfalso. apply (H w'). reflexivity.
+  Qed.
+
+  Lemma enc_np : forall n r, res_dom E n r = true -> forall w, enc_result E n r <> Panic w.
+  Proof.
+    intros n r Hd w. destruct (enc_result_roundtrip E HOK n r Hd) as [x [Hx _]]. rewrite Hx. discriminate.
+  Qed.
+
+  (** decoding and the call: no panic, and an Ok result is a result of the searcher *)
+  Lemma search_core_spec : forall f, (forall q o w, o <> VNil -> f q o <> Panic w) ->
+    forall request, wire_wf request = true ->
+    (forall w, search_core E f true request <> Panic w) /\
+    (forall r, search_core E f true request = Ok r -> exists q o, f q o = Ok r).
+  Proof.
+    intros f f_np request Hwf. unfold search_core.
+    pose proof (decode_query_np _ (wire_wf_getf "Query" _ Hwf)) as Hq.
+    destruct (decode_query E (getf "Query" request)) as [q|e|w0]; simpl;
+      [|split; [discriminate|intros r Hr; discriminate]|exfalso; apply (Hq w0); reflexivity].
+    assert (Ho : forall w, apply E (CRec false true "zoekt.SearchOptions") (getf "Opts" request) <> Panic w).
+    { apply (from_no_panic E HE _ (wire_wf_getf _ _ Hwf)).
+      - unfold safe_payload_conv. rewrite (safe_conv_rec E _ _ HE). reflexivity.
+      - right. apply (safe_conv_rec E _ _ HE). }
+    destruct (apply E (CRec false true "zoekt.SearchOptions") (getf "Opts" request)) as [opts|e|w0]; simpl;
+      [|split; [discriminate|intros r Hr; discriminate]|exfalso; apply (Ho w0); reflexivity].
+    unfold call_search.
+    destruct (is_nil opts) eqn:Hn.
+    - unfold zero_opts, rows_of.
+      destruct (from_safe_parts E HE) as [_ [_ [_ [_ [_ [[t Ht] _]]]]]]. rewrite Ht. simpl.
+      split; [intros w; apply f_np; discriminate|intros r Hr; eauto].
+    - rewrite Hn. split; [intros w; apply f_np; intros ->; discriminate|intros r Hr; eauto].
+  Qed.
+
+  Theorem handlers_total : forall h req, wire_wf req = true ->
+    forall w, handle E search stream list true h req <> Panic w.
+  Proof.
+    intros h req Hwf. unfold handle.
+    assert (HL : forall w, handle_list E list req <> Panic w).
+    { unfold handle_list, list_core.
+      pose proof (decode_query_np _ (wire_wf_getf "Query" _ Hwf)) as Hq.
+      destruct (decode_query E (getf "Query" req)) as [q|e|w0]; simpl;
+        [|intros w; discriminate|exfalso; apply (Hq w0); reflexivity].
+      assert (Ho : forall w, apply E (CRec false true "zoekt.ListOptions") (getf "Opts" req) <> Panic w).
+      { apply (from_no_panic E HE _ (wire_wf_getf _ _ Hwf)).
+        - unfold safe_payload_conv. rewrite (safe_conv_rec E _ _ HE). reflexivity.
+        - right. apply (safe_conv_rec E _ _ HE). }
+      destruct (apply E (CRec false true "zoekt.ListOptions") (getf "Opts" req)) as [o|e|w0]; simpl;
+        [|intros w; discriminate|exfalso; apply (Ho w0); reflexivity].
+      intros w. destruct (list q o) as [r|e|w0] eqn:Hl; simpl.
+      - apply enc_np. apply (list_dom _ _ _ Hl).
+      - discriminate.
+      - exfalso. apply (list_np q o w0). exact Hl. }
+    destruct h as [|[p|p|]]; try exact HL.
+    - (* Search *)
+      unfold handle_search. destruct (search_core_spec search search_np req Hwf) as [Hnp Hres].
+      intros w. destruct (search_core E search true req) as [r|e|w0] eqn:Hc; simpl.
+      + destruct (Hres r eq_refl) as [q [o Hq]]. apply enc_np. apply (search_dom _ _ _ Hq).
+      + discriminate.
+      + exfalso. apply (Hnp w0). reflexivity.
+    - (* StreamSearch *)
+      unfold handle_stream_search.
+      destruct (search_core_spec stream stream_np (getf "Request" req) (wire_wf_getf _ _ Hwf)) as [Hnp Hres].
+      intros w. destruct (search_core E stream true (getf "Request" req)) as [r|e|w0] eqn:Hc; simpl.
+      + destruct (Hres r eq_refl) as [q [o Hq]].
+        destruct r; try discriminate.
+        apply obind_np; [|intros a w'; discriminate].
+        apply omap_np. intros x Hin. apply enc_np.
+        apply (forallb_In _ _ x (stream_dom _ _ _ Hq) Hin).
+      + discriminate.
+      + exfalso. apply (Hnp w0). reflexivity.
+  Qed.
+
+  (** what the client decodes from the response of Search / List is what the searcher returned
+      (named exclusions reset) *)
+  Theorem search_response_lossless : forall req resp, wire_wf req = true ->
+    handle_search E search true req = Ok resp ->
+    exists q o r, search q o = Ok r /\ dec_result E "zoekt.SearchResult" resp = Ok (res_back E "zoekt.SearchResult" r).
+  Proof.
+    intros req resp Hwf H. unfold handle_search in H.
+    destruct (search_core_spec search search_np req Hwf) as [_ Hres].
+    destruct (search_core E search true req) as [r|e|w0] eqn:Hc; simpl in H; try discriminate.
+    destruct (Hres r eq_refl) as [q [o Hq]]. exists q, o, r. split; [exact Hq|].
+    destruct (enc_result_roundtrip E HOK _ r (search_dom _ _ _ Hq)) as [x [Hx Hb]].
+    rewrite Hx in H. inversion H. subst. exact Hb.
+  Qed.
+
+  Theorem list_response_lossless : forall req resp, wire_wf req = true ->
+    handle_list E list req = Ok resp ->
+    exists q o r, list q o = Ok r /\ dec_result E "zoekt.RepoList" resp = Ok (res_back E "zoekt.RepoList" r).
+  Proof.
+    intros req resp Hwf H. unfold handle_list, list_core in H.
+    destruct (decode_query E (getf "Query" req)) as [q|e|w0]; simpl in H; try discriminate.
+    destruct (apply E (CRec false true "zoekt.ListOptions") (getf "Opts" req)) as [o|e|w0]; simpl in H; try discriminate.
+    destruct (list q o) as [r|e|w0] eqn:Hl; simpl in H; try discriminate.
+    exists q, o, r. split; [exact Hl|].
+    destruct (enc_result_roundtrip E HOK _ r (list_dom _ _ _ Hl)) as [x [Hx Hb]].
+    rewrite Hx in H. inversion H. subst. exact Hb.
+  Qed.
+End HandlersTotal.
